@@ -15,6 +15,84 @@ from pmv.report import Run, AnalysisError          # noqa: E402
 from pmv.source import Repo, AnchorError, Unsupported  # noqa: E402
 
 
+def report_hazards(run, repo, log):
+    """hazards the interpreter met anywhere in this run and that no rule turned into a finding of its own: a store of
+    a real value into a buffer whose element type is taken from the caller's container (integer input truncates every
+    stored value) breaks any property that compares the stored values with the model"""
+    import ast as _ast
+    seen = set()
+    reported = {(f.relpath, f.line) for f in run.findings}
+    for kind, node, rel, item in log:
+        if kind == 'replace':
+            ln = getattr(node, 'lineno', 0)
+            if (rel, ln) in seen or (rel, ln) in reported:
+                continue
+            seen.add((rel, ln))
+            m = [x for x in repo.modules.values() if x.relpath == rel]
+            if m:
+                from pmv.source import norm
+                run.fail('EFFECT.replace-text', '%s:%s' % (m[0].name.split('.', 1)[-1], norm(node)[:50]),
+                         'replace:%r' % (item[1],),
+                         'str.replace(%r, ...) is applied to a text that contains user-supplied names or tokens whose '
+                         'spelling may contain %r: those occurrences are rewritten as well' % (item[1], item[1]),
+                         m[0], node)
+            continue
+        if kind != 'dtype':
+            continue
+        ln = getattr(node, 'lineno', 0)
+        if (rel, ln) in seen or (rel, ln) in reported:
+            continue
+        seen.add((rel, ln))
+        m = [x for x in repo.modules.values() if x.relpath == rel]
+        if not m:
+            continue
+        fname = '?'
+        for fn in _ast.walk(m[0].tree):
+            if isinstance(fn, (_ast.FunctionDef, _ast.AsyncFunctionDef)) and fn.lineno <= ln <= (fn.end_lineno or ln):
+                fname = fn.name
+        from pmv.source import norm
+        run.fail('TYPE.int-buffer', '%s.%s' % (m[0].name.split('.', 1)[-1], fname), 'store:' + norm(node)[:60],
+                 'a computed (real) value is stored into an array whose element type is taken from a container the '
+                 'caller supplies or is an integer type: with integer input the stored values are truncated',
+                 m[0], node)
+
+
+def check_placeholders(repo, log):
+    """a formatted text the interpreter could not spell abstractly was replaced by a placeholder; that is harmless in
+    the text of an exception or a warning and nowhere else"""
+    import ast as _ast
+    for rel, ln in sorted(set(log)):
+        m = [x for x in repo.modules.values() if x.relpath == rel]
+        if not m:
+            continue
+        fn = None
+        for f in _ast.walk(m[0].tree):
+            if isinstance(f, (_ast.FunctionDef, _ast.AsyncFunctionDef)) and f.lineno <= ln <= (f.end_lineno or ln):
+                fn = f
+        if fn is None:
+            raise AnalysisError('a formatted text without abstract spelling at %s:%d (module level)' % (rel, ln))
+        stmt = None
+        for st in _ast.walk(fn):
+            if isinstance(st, _ast.stmt) and st.lineno <= ln <= (st.end_lineno or st.lineno) and \
+                    not isinstance(st, (_ast.FunctionDef, _ast.If, _ast.For, _ast.While, _ast.Try, _ast.With)):
+                stmt = st
+
+        def message_only(node):
+            return isinstance(node, _ast.Raise) or (
+                isinstance(node, _ast.Expr) and isinstance(node.value, _ast.Call) and
+                _ast.unparse(node.value.func).split('.')[-1] in ('warn', 'warning', 'error', 'info', 'debug', 'print'))
+        ok = stmt is not None and message_only(stmt)
+        if not ok and isinstance(stmt, _ast.Assign) and len(stmt.targets) == 1 and isinstance(stmt.targets[0], _ast.Name):
+            name = stmt.targets[0].id
+            uses = [u for u in _ast.walk(fn) if isinstance(u, _ast.Name) and u.id == name and
+                    isinstance(u.ctx, _ast.Load)]
+            holders = [h for h in _ast.walk(fn) if isinstance(h, _ast.stmt) and message_only(h)]
+            ok = bool(uses) and all(any(u in list(_ast.walk(h)) for h in holders) for u in uses)
+        if not ok:
+            raise AnalysisError('a formatted text the analysis cannot spell is used outside an exception or warning '
+                                'message at %s:%d' % (rel, ln))
+
+
 def main(argv=None):
     ap = argparse.ArgumentParser()
     ap.add_argument('prop')
@@ -41,7 +119,12 @@ def main(argv=None):
             mod = importlib.import_module('pmv.rules.%s' % prop.lower())
         except ImportError as e:
             raise AnalysisError('no rule module for %s (%s)' % (prop, e))
+        from pmv import xlate as _x
+        _x.HAZARD_LOG[:] = []
+        _x.PLACEHOLDER_LOG[:] = []
         mod.check(run, repo)
+        report_hazards(run, repo, _x.HAZARD_LOG)
+        check_placeholders(repo, _x.PLACEHOLDER_LOG)
         # functions analysed = what the interpreter actually entered (names are not assumed, private helpers may be
         # renamed or moved without the evidence going stale)
         from pmv.xlate import VISITED
